@@ -72,6 +72,14 @@ def read_text(path):
         return None
 
 
+def fs_path(config, selector):
+    """root + selector as bytes — computed here, not by the VFS under test"""
+    p = config.get("pygopherd", "root") + selector
+    if len(p) > 1 and p.endswith("/"):
+        p = p[:-1]
+    return os.fsencode(p)
+
+
 def kind_of(path):
     try:
         st = os.stat(path)
@@ -103,7 +111,7 @@ def describe_world(config, root, dirsel, stat_fail=()):
     children = []
     for n in names:
         sel = base + "/" + n
-        fsp = os.fsencode(vfs.getfspath(sel))
+        fsp = fs_path(config, sel)
         k = None if n in stat_fail else kind_of(fsp)
         info = None
         err = None
@@ -120,7 +128,7 @@ def describe_world(config, root, dirsel, stat_fail=()):
         except Exception as ex:  # noqa
             err = exc_name(ex)
         text = read_text(fsp) if (k == "file" and n.startswith(".")) else None
-        cap = read_text(os.fsencode(vfs.getfspath(base + "/.cap/" + n)))
+        cap = read_text(fs_path(config, base + "/.cap/" + n))
         children.append({"name": n, "kind": k, "info": info, "err": err, "text": text, "cap": cap})
     return {"selector": dirsel, "children": children}
 
@@ -223,14 +231,37 @@ def op_c07_entrycmp(job):
 
 
 def op_c07_search(job):
-    """re.search(pattern, s) is not None, for the configured pattern or given ones."""
+    """The real DirHandler.prep_initfiles_canaddfile(ignorepatt, string, name) — i.e. whether
+    re.search(pattern, string) finds nothing — for the configured pattern or given ones.
+    The method is internal: when its signature has changed (e.g. it now wants a compiled
+    pattern) the call is adapted, and when it cannot be called at all the component
+    comparison is reported as unavailable and the end-to-end listings decide."""
     config = DRV.make_config("/nonexistent-root")
+    h = DirHandler("/", "", None, config, None)
     out = []
+    how = "str"
     for patt, strings in job["groups"]:
         if patt is None:
             patt = config.get("handlers.dir.DirHandler", "ignorepatt")
-        out.append([bool(re.search(patt, s)) for s in strings])
-    return {"shipped": config.get("handlers.dir.DirHandler", "ignorepatt"), "results": out}
+        row = []
+        for s in strings:
+            name = s.rsplit("/", 1)[-1]
+            r = None
+            for variant, arg in (("str", patt), ("compiled", None)):
+                try:
+                    if variant == "compiled":
+                        arg = re.compile(patt)
+                    r = not h.prep_initfiles_canaddfile(arg, s, name)
+                    if variant != "str":
+                        how = variant
+                    break
+                except Exception:  # noqa
+                    continue
+            if r is None:
+                how = "unavailable"
+            row.append(r)
+        out.append(row)
+    return {"shipped": config.get("handlers.dir.DirHandler", "ignorepatt"), "results": out, "how": how}
 
 
 def register(OPS, drv):
